@@ -472,9 +472,14 @@ func (db *RockDB) ZRem(ts int64, key []byte, members ...[]byte) (int64, error) {
 	defer wb.Clear()
 
 	var num int64 = 0
+	// the same member may be given more than once, it is removed and counted once
+	lastIdx := lastOccurrenceIndexes(len(members), func(i int) []byte { return members[i] })
 	for i := 0; i < len(members); i++ {
 		if err := common.CheckKeySubKey(key, members[i]); err != nil {
 			return 0, err
+		}
+		if lastIdx != nil && lastIdx[string(members[i])] != i {
+			continue
 		}
 		if n, err := db.zDelItem(table, keyInfo.VerKey, members[i], wb); err != nil {
 			return 0, err
